@@ -12,7 +12,7 @@ BUILTIN_NAMES = ('String', 'Long', 'Bool', 'ipaddr', 'decimal', 'datetime', 'dur
 
 
 def run(ctx):
-    b = lib.standard_build(ctx)
+    b = lib.standard_build(ctx, theorems=False)   # no Coq theorem for this property yet: see MANIFEST level
     if not lib.require_builds(ctx, b):
         return
     r = ctx.rng
